@@ -28,6 +28,39 @@ Definition op_select : opfun := fun zs _ =>
       Ok [qz (c10_kind_z (d_kind d)); qb (d_on_para d); qz (c10_order_z (d_order d)); qz (d_maxit d)]
   | _ => Err (-1) end.
 
+(* ---- a re-used algorithm object: installed projection after a sequence of configurations.
+   zs = [has_given; g_kind; g_para; g_order; g_maxit] ++ 6 per configuration [t_para; t_order; o_eq; o_ineq; o_order; o_maxit].
+   reply = descriptor of the installed projection; Err 3 when nothing is installed (no given projection, no configuration);
+   Err (-1) on a malformed request *)
+Fixpoint c10_cfgs (fuel : nat) (zs : list Z) : option (list (C10_template * C10_option)) :=
+  match zs with
+  | [] => Some []
+  | tp :: to :: oe :: oi :: oo :: om :: rest =>
+      match fuel with
+      | O => None
+      | S f => match c10_cfgs f rest with
+               | Some l => Some (({| t_on_para := c10_b tp; t_order := c10_order_of_z to |},
+                                  {| o_eq := c10_b oe; o_ineq := c10_b oi; o_order := c10_order_of_z oo; o_maxit_proj := om |}) :: l)
+               | None => None end
+      end
+  | _ => None
+  end.
+Definition op_configure_seq : opfun := fun zs _ =>
+  match zs with
+  | hg :: gk :: gp :: go :: gm :: rest =>
+      match c10_cfgs (length rest) rest with
+      | Some cfgs =>
+          let a0 := {| a_given := if c10_b hg then Some {| d_kind := c10_kind_of_z gk; d_on_para := c10_b gp;
+                                                          d_order := c10_order_of_z go; d_maxit := gm |} else None;
+                       a_derived := None |} in
+          match C10_installed (fold_left C10_configure cfgs a0) with
+          | Some d => Ok [qz (c10_kind_z (d_kind d)); qb (d_on_para d); qz (c10_order_z (d_order d)); qz (d_maxit d)]
+          | None => Err 3
+          end
+      | None => Err (-1)
+      end
+  | _ => Err (-1) end.
+
 (* ---- the rational loss used for execution: qs tail = A (nd*n, row-major) ++ c (nd) ++ w (nd) *)
 Record c10_loss := { l_f : @vec QF -> Qc; l_g : @vec QF -> @vec QF }.
 Definition c10_mkloss (n nd : nat) (l : list Qc) : c10_loss :=
@@ -123,6 +156,6 @@ Definition op_ineq_para_d4 : opfun := fun _ qs =>
   Ok (c10_out 3 r ++ c10_out 4 (C10_d4_eig QF sp) ++ c10_out 4 (C10_d4_eig QF (C10_d4_to_stacked QF r))).
 
 Definition C10_ops : optable :=
-  [ ("c10.select"%string, op_select); ("c10.bt_step"%string, op_bt_step); ("c10.mom_step"%string, op_mom_step);
+  [ ("c10.select"%string, op_select); ("c10.configure_seq"%string, op_configure_seq); ("c10.bt_step"%string, op_bt_step); ("c10.mom_step"%string, op_mom_step);
     ("c10.fista_step"%string, op_fista_step); ("c10.origin"%string, op_origin); ("c10.bt_run_eq"%string, op_bt_run_eq);
     ("c10.ineq_para_d4"%string, op_ineq_para_d4) ].
